@@ -252,7 +252,11 @@ _weak = st.one_of(
     st.binary(max_size=300),
     st.lists(st.sampled_from([b'\r\n', b'\n', b'\r', b':', b' ', b'\t', b'A', b'Subject', b'From ', b'\xff', b'\x00', b'=?', b'?=',
                               b'Content-Type: multipart/mixed; boundary=x', b'--x', b'--x--', b'\x0b', b'\x0c', b'\x1c', b'x' * 100,
-                              b'Content-Transfer-Encoding: base64', b'MIME-Version: 1.0', b'\xc3']), max_size=25).map(b''.join))
+                              b'Content-Transfer-Encoding: base64', b'MIME-Version: 1.0', b'\xc3',
+                              b'To: ', b'From: ', b'Sender: ', b'Cc: ', b'Date: ', b'Message-Id: ', b'Received: ', b'Content-Type: ',
+                              b'"', b'<', b'>', b',', b';', b'(', b')', b'@', b'.', b'\\', b'"Example Widgets Ltd." Inc.: ',
+                              b'alice@example.com, bob@example.com, carol@example.com;', b'undisclosed-recipients:;', b'=?utf-8?b?',
+                              b'a@b.example', b'Group Name: ', b'"quoted, name" <q@example.org>, ', b'x' * 30]), max_size=25).map(b''.join))
 
 
 def run_weak(ctx, n):
